@@ -15,8 +15,8 @@ use std::time::Duration;
 
 #[derive(Clone, Debug, Serialize, Deserialize)]
 pub enum Mal {
-    PathSeg { pos: u8, bad: u16, all: bool },
-    QueryVal { field: u8, bad: u16, all: bool },
+    PathSeg { pos: u8, bad: u16, all: bool, garbage: Option<String> },
+    QueryVal { field: u8, bad: u16, all: bool, garbage: Option<String> },
     QueryMissing { field: u8, all: bool },
     QueryDup { field: u8, all: bool },
     JsonField { field: u8, bad: u16, all: bool },
@@ -24,7 +24,7 @@ pub enum Mal {
     JsonDup { field: u8, all: bool },
     JsonSyntax { kind: u8, at: u16, all: bool },
     ContentType { kind: u8, target: u8 },
-    FormField { field: u8, bad: u16 },
+    FormField { field: u8, bad: u16, garbage: Option<String> },
     FormMissing { field: u8 },
     FormDup { field: u8 },
 }
@@ -107,10 +107,65 @@ fn form_bad(field: &str) -> &'static [&'static str] {
 }
 const FORM_BADDABLE: [&str; 4] = ["b", "c", "e", "big"];
 
+/// free-form text that is then made unparseable for the target type
+fn garbage() -> impl Strategy<Value = Option<String>> {
+    prop_oneof![
+        3 => Just(None),
+        2 => "\\PC{1,60}".prop_map(Some),
+        2 => ("[0-9]{0,40}", "[日本語éü🦀]{1,6}", "[0-9a-z]{0,8}").prop_map(|(a, b, c)| Some(format!("{}{}{}", a, b, c))),
+        1 => ("[a-f0-9-]{20,40}", "[€ß]{1,3}").prop_map(|(a, b)| Some(format!("{}{}", a, b))),
+        1 => "[ -~]{1,80}".prop_map(Some),
+    ]
+}
+
+/// make `g` invalid for the named type by construction (own predicates)
+fn spoil(kind: &str, g: &str) -> String {
+    let g = if g.is_empty() || g == "." || g == ".." { format!("x{}", g) } else { g.to_string() };
+    let plain_int = |s: &str| {
+        let t = s.strip_prefix('+').or_else(|| s.strip_prefix('-')).unwrap_or(s);
+        !t.is_empty() && t.bytes().all(|b| b.is_ascii_digit())
+    };
+    match kind {
+        "int" => {
+            if plain_int(&g) {
+                format!("{}~", g)
+            } else {
+                g
+            }
+        }
+        "bool" => {
+            if g == "true" || g == "false" {
+                format!("{}!", g)
+            } else {
+                g
+            }
+        }
+        "uuid" => {
+            // anything with a character no uuid spelling contains
+            format!("{}~", g)
+        }
+        "enum" => {
+            if COLORS.iter().any(|(_, n)| *n == g) {
+                format!("{}~", g)
+            } else {
+                g
+            }
+        }
+        "char" => {
+            if g.chars().count() == 1 {
+                format!("{}{}", g, g)
+            } else {
+                g
+            }
+        }
+        _ => g,
+    }
+}
+
 fn mal_strategy() -> impl Strategy<Value = Mal> {
     prop_oneof![
-        3 => (0u8..5, any::<u16>(), any::<bool>()).prop_map(|(pos, bad, all)| Mal::PathSeg { pos, bad, all }),
-        3 => (0u8..10, any::<u16>(), any::<bool>()).prop_map(|(field, bad, all)| Mal::QueryVal { field, bad, all }),
+        4 => (0u8..5, any::<u16>(), any::<bool>(), garbage()).prop_map(|(pos, bad, all, garbage)| Mal::PathSeg { pos, bad, all, garbage }),
+        4 => (0u8..10, any::<u16>(), any::<bool>(), garbage()).prop_map(|(field, bad, all, garbage)| Mal::QueryVal { field, bad, all, garbage }),
         1 => (0u8..9, any::<bool>()).prop_map(|(field, all)| Mal::QueryMissing { field, all }),
         1 => (0u8..13, any::<bool>()).prop_map(|(field, all)| Mal::QueryDup { field, all }),
         4 => (0u8..14, any::<u16>(), any::<bool>()).prop_map(|(field, bad, all)| Mal::JsonField { field, bad, all }),
@@ -118,7 +173,7 @@ fn mal_strategy() -> impl Strategy<Value = Mal> {
         1 => (0u8..14, any::<bool>()).prop_map(|(field, all)| Mal::JsonDup { field, all }),
         4 => (0u8..17, any::<u16>(), any::<bool>()).prop_map(|(kind, at, all)| Mal::JsonSyntax { kind, at, all }),
         2 => (0u8..9, 0u8..3).prop_map(|(kind, target)| Mal::ContentType { kind, target }),
-        1 => (0u8..4, any::<u16>()).prop_map(|(field, bad)| Mal::FormField { field, bad }),
+        2 => (0u8..4, any::<u16>(), garbage()).prop_map(|(field, bad, garbage)| Mal::FormField { field, bad, garbage }),
         1 => (0u8..5).prop_map(|field| Mal::FormMissing { field }),
         1 => (0u8..6).prop_map(|field| Mal::FormDup { field }),
     ]
@@ -189,18 +244,33 @@ pub fn render_bad(c: &BadCase) -> Option<BadWire> {
     let (op, class, desc): (&'static str, String, String);
     let use_all = |all: bool, single: &'static str| if all { "ve_all" } else { single };
     match &c.mal {
-        Mal::PathSeg { pos, bad, all } => {
+        Mal::PathSeg { pos, bad, all, garbage } => {
             let p = (*pos as usize) % 5;
             let list = PATH_BAD[p];
-            let b = pick(*bad, list);
+            let spoiled = garbage.as_ref().map(|g| spoil(["int", "uuid", "enum", "int", "bool"][p], g));
+            let b: &str = match &spoiled {
+                Some(g) => g.as_str(),
+                None => *pick(*bad, list),
+            };
             path_segs[p + 1] = enc_path_segment(b, &mut st);
             op = use_all(*all, "ve_path");
             class = format!("path:{}", ["n", "id", "color", "neg", "flag"][p]);
             desc = format!("path variable {} = {:?}", ["n", "id", "color", "neg", "flag"][p], b);
         }
-        Mal::QueryVal { field, bad, all } => {
+        Mal::QueryVal { field, bad, all, garbage } => {
             let f = QUERY_BADDABLE[(*field as usize) % QUERY_BADDABLE.len()];
-            let b = pick(*bad, query_bad(f));
+            let kind = match f {
+                "b" => "bool",
+                "ch" => "char",
+                "color" => "enum",
+                "f" => "",
+                _ => "int",
+            };
+            let spoiled = if kind.is_empty() { None } else { garbage.as_ref().map(|g| spoil(kind, g)) };
+            let b: &str = match &spoiled {
+                Some(g) => g.as_str(),
+                None => *pick(*bad, query_bad(f)),
+            };
             qpairs.retain(|(k, _)| k != f);
             qpairs.push((f.to_string(), b.to_string()));
             op = use_all(*all, "ve_query");
@@ -348,9 +418,18 @@ pub fn render_bad(c: &BadCase) -> Option<BadWire> {
                 pairs.push(("o".into(), o.clone()));
             }
             match &c.mal {
-                Mal::FormField { field, bad } => {
+                Mal::FormField { field, bad, garbage } => {
                     let f = FORM_BADDABLE[(*field as usize) % 4];
-                    let b = pick(*bad, form_bad(f));
+                    let kind = match f {
+                        "c" => "bool",
+                        "e" => "enum",
+                        _ => "int",
+                    };
+                    let spoiled = garbage.as_ref().map(|g| spoil(kind, g));
+                    let b: &str = match &spoiled {
+                        Some(g) => g.as_str(),
+                        None => *pick(*bad, form_bad(f)),
+                    };
                     pairs.retain(|(k, _)| k != f);
                     pairs.push((f.to_string(), b.to_string()));
                     class = format!("form-value:{}", f);
@@ -521,7 +600,7 @@ pub fn run(ctx: &mut Ctx) {
     let srt = tokio::runtime::Builder::new_multi_thread().worker_threads(2).enable_all().build().unwrap();
     let rt = tokio::runtime::Builder::new_current_thread().enable_all().build().unwrap();
     let live = start_echo(&srt, 1 << 20, dropshot::HandlerTaskMode::Detached);
-    let n = ctx.tier.pick(15000, 250000);
+    let n = ctx.tier.pick(9000, 250000);
     ctx.phase("malformations", n, bad_case_strategy(), |c, st| check_bad(&live, &rt, c, st));
     for k in ["path", "query-value", "query-missing", "query-duplicate", "json-value", "json-missing", "json-duplicate", "json-syntax", "content-type", "form-value", "form-missing", "form-duplicate"] {
         ctx.require_frac("malformations", &format!("class:{}", k), "class:path", 0.05);
